@@ -16,12 +16,17 @@ import (
 
 // makeOverlay runs the instrumenter on /repo's working tree and returns the
 // path of the overlay file.
-func makeOverlay(yields bool) string {
-	dir := filepath.Join(scratch, "overlay_accessor")
+func makeOverlay(yields bool) string { return makeOverlayTags(yields, "") }
+
+func makeOverlayTags(yields bool, tags string) string {
+	dir := filepath.Join(scratch, "overlay_accessor"+tags)
 	args := []string{"-repo", repoDir, "-out", dir}
 	if yields {
-		dir = filepath.Join(scratch, "overlay_yields")
+		dir = filepath.Join(scratch, "overlay_yields"+tags)
 		args = []string{"-repo", repoDir, "-out", dir, "-yields"}
+	}
+	if tags != "" {
+		args = append(args, "-tags", tags)
 	}
 	ov := filepath.Join(dir, "overlay.json")
 	if _, err := os.Stat(ov); err == nil {
@@ -281,6 +286,9 @@ func checkC18(ca *checkArgs) int {
 	ov := makeOverlay(true)
 	binP := build("edsim_sched", "-tags", "verif", "-overlay", ov)
 	binR := build("edsim_sched_race", "-race", "-tags", "verif", "-overlay", ov)
+	// the portable configuration is also exercised concurrently (a smaller wave)
+	ovP := makeOverlayTags(true, "purego")
+	binPP := build("edsim_sched_purego", "-tags", "verif,purego", "-overlay", ovP)
 	if out, err := exec.Command(binP, "selfcheck").CombinedOutput(); err != nil {
 		fmt.Print(string(out))
 		inconclusive("simulator self-check failed")
@@ -294,6 +302,10 @@ func checkC18(ca *checkArgs) int {
 	rb := runSchedBatch(binR, ca.seed, nRace, ca.workers, time.Now().Add(budgetRace), true, true)
 	if rb.err != "" {
 		inconclusive("%s", rb.err)
+	}
+	ppb := runSchedBatch(binPP, ca.seed+1, nPlain/5+1, ca.workers, time.Now().Add(budgetPlain/4), false, false)
+	if ppb.err != "" {
+		inconclusive("%s", ppb.err)
 	}
 	code := 0
 	var replayFiles []string
@@ -338,6 +350,13 @@ func checkC18(ca *checkArgs) int {
 	}
 	for _, v := range rb.violations {
 		report(v, binR, false)
+	}
+	for _, v := range ppb.violations {
+		var tr map[string]interface{}
+		json.Unmarshal(v.Trace, &tr)
+		tr["build"] = "purego"
+		v.Trace, _ = json.Marshal(tr)
+		report(v, binPP, false)
 	}
 	// data races under controlled schedules
 	harnessOnly := 0
@@ -461,15 +480,15 @@ func checkC18(ca *checkArgs) int {
 			"the hand-off between tasks spins on a variable touched only in //go:norace functions, so the race detector sees exactly the library's own synchronisation",
 			"library code that spawns goroutines or blocks on channels/Cond/WaitGroup is not controllable: such trees end INCONCLUSIVE (exit 2)"),
 		"wall_s":     wall,
-		"violations": len(pb.violations) + len(rb.violations) + len(rb.races),
+		"violations": len(pb.violations) + len(rb.violations) + len(rb.races) + len(ppb.violations),
 	}
 	writeEvidenceFile("C18", ev)
 	if code == 0 && len(unreached) > 0 {
 		inconclusive("schedules did not reach: %v", unreached)
 	}
 	if code == 0 {
-		fmt.Printf("OK property=C18 held on %d plain + %d race runs (%d yield points, %d context switches, %d distinct switch sequences) in %.1fs\n",
-			pb.runs, rb.runs, pb.stats["yields"]+rb.stats["yields"], pb.stats["switches"]+rb.stats["switches"], len(pb.switchSeqs)+len(rb.switchSeqs), wall)
+		fmt.Printf("OK property=C18 held on %d plain + %d race + %d purego runs (%d yield points, %d context switches, %d distinct switch sequences) in %.1fs\n",
+			pb.runs, rb.runs, ppb.runs, pb.stats["yields"]+rb.stats["yields"], pb.stats["switches"]+rb.stats["switches"], len(pb.switchSeqs)+len(rb.switchSeqs), wall)
 	}
 	return code
 }
@@ -485,12 +504,15 @@ func firstLines(s string, n int) string {
 func replayC18(path string) int {
 	data, _ := os.ReadFile(path)
 	var t struct {
-		Race bool `json:"race"`
+		Race  bool   `json:"race"`
+		Build string `json:"build"`
 	}
 	json.Unmarshal(data, &t)
 	ov := makeOverlay(true)
 	var bin string
-	if t.Race {
+	if t.Build == "purego" {
+		bin = build("edsim_sched_purego", "-tags", "verif,purego", "-overlay", makeOverlayTags(true, "purego"))
+	} else if t.Race {
 		bin = build("edsim_sched_race", "-race", "-tags", "verif", "-overlay", ov)
 	} else {
 		bin = build("edsim_sched", "-tags", "verif", "-overlay", ov)
